@@ -73,8 +73,11 @@ func fileInfoFromOS(p string, fi os.FileInfo) *FileInfo {
 func errFromOS(err error) error {
 	// Remove path from path errors so it's not returned to the user
 	var perr *fs.PathError
+	var lerr *os.LinkError
 	if errors.As(err, &perr) {
 		err = fmt.Errorf("%s: %w", perr.Op, perr.Err)
+	} else if errors.As(err, &lerr) {
+		err = fmt.Errorf("%s: %w", lerr.Op, lerr.Err)
 	}
 
 	if errors.Is(err, fs.ErrNotExist) || errors.Is(err, syscall.ENOTDIR) {
@@ -223,7 +226,7 @@ func (fs LocalFileSystem) Mkdir(ctx context.Context, name string) error {
 		return err
 	}
 	if err := os.Mkdir(p, 0755); os.IsExist(err) {
-		return NewHTTPError(http.StatusMethodNotAllowed, err)
+		return NewHTTPError(http.StatusMethodNotAllowed, errFromOS(err))
 	} else {
 		return errFromOS(err)
 	}
